@@ -264,7 +264,69 @@ func c14EndToEnd(c *vlib.Ctx) {
 			ts = ts[:90]
 		}
 		first := seq + 1
-		for _, t := range ts {
+		half := len(ts) / 2
+		for _, t := range ts[:half] {
+			if vlib.Aborted() || !trigger(t.In(zones[r.Intn(len(zones))])) {
+				return
+			}
+		}
+		for w := 0; w < 1500 && !processed(fmt.Sprint(seq)); w++ {
+			time.Sleep(20 * time.Millisecond)
+		}
+		// ---- the date lists of the running rule change (one date more, or the last one taken away); the second half
+		// of the instants is judged by the new lists
+		oldCfgs := map[string]schedCfg{}
+		for id, cfg := range cfgs {
+			oc := *cfg
+			oc.Dates = append([]string{}, cfg.Dates...)
+			oldCfgs[id] = oc
+		}
+		editFrom := seq + 1
+		nBefore := 0
+		for _, e := range snapshot() {
+			if e.config {
+				nBefore++
+			}
+		}
+		nEdits := 0
+		for _, id := range condIDs {
+			cfg := cfgs[id]
+			var ep data.Points
+			if len(cfg.Dates) > 0 && r.Chance(0.5) {
+				k := len(cfg.Dates) - 1
+				dp := pt(data.PointTypeDate, fmt.Sprint(k), cfg.Dates[k], 0)
+				dp.Tombstone = 1
+				ep = data.Points{dp}
+				cfg.Dates = cfg.Dates[:k]
+				layouts[id] += " -date"
+			} else {
+				ds := anchor.AddDate(0, 0, r.Intn(9)-1).Format("2006-01-02")
+				ep = data.Points{pt(data.PointTypeDate, fmt.Sprint(len(cfg.Dates)), ds, 0)}
+				cfg.Dates = append(cfg.Dates, ds)
+				layouts[id] += " +date"
+			}
+			if !send(vlib.NodeSubj(id), ep) {
+				return
+			}
+			nEdits++
+		}
+		for w := 0; w < 500; w++ {
+			n := 0
+			for _, e := range snapshot() {
+				if e.config {
+					n++
+				}
+			}
+			if n >= nBefore+nEdits {
+				break
+			}
+			time.Sleep(20 * time.Millisecond)
+			if w == 499 {
+				c.Inconclusive("end to end: date edits did not reach the running rule within 10 s")
+				return
+			}
+		}
+		for _, t := range ts[half:] {
 			if vlib.Aborted() || !trigger(t.In(zones[r.Intn(len(zones))])) {
 				return
 			}
@@ -284,12 +346,26 @@ func c14EndToEnd(c *vlib.Ctx) {
 			if !e.process || len(e.points) != 1 || e.points[0].Type != data.PointTypeTrigger {
 				continue
 			}
+			cfgOf := func(id string) schedCfg { return *cfgs[id] }
 			if e.node == src {
 				var n int
 				fmt.Sscan(e.points[0].Key, &n)
 				if n < first {
 					continue // probes sent before the configuration was complete
 				}
+				if n < editFrom {
+					cfgOf = func(id string) schedCfg { return oldCfgs[id] }
+				}
+			} else if func() bool { // a ticker run: which lists it saw is only certain after the last edit has arrived
+				seen := 0
+				for _, b := range all[:k] {
+					if b.config {
+						seen++
+					}
+				}
+				return seen < nBefore+nEdits
+			}() {
+				continue
 			} else if nConfig+len(late) > 0 && k < len(all) && func() bool { // a ticker run before the late lists arrived
 				seen := 0
 				for _, b := range all[:k] {
@@ -318,7 +394,8 @@ func c14EndToEnd(c *vlib.Ctx) {
 			ids := append([]string{}, condIDs...)
 			sort.Strings(ids)
 			for _, id := range ids {
-				want := refActive(*cfgs[id], T)
+				cf := cfgOf(id)
+				want := refActive(cf, T)
 				got, ok := done.active[id]
 				if !ok {
 					c.Violate("schedule:condition-missing-in-rule", fmt.Sprintf("the running rule does not list condition %s", id), wit)
@@ -328,7 +405,7 @@ func c14EndToEnd(c *vlib.Ctx) {
 				if got != want {
 					wit["instant"], wit["instant_utc"], wit["weekday_utc"], wit["log"] = T.Format(time.RFC3339Nano), T.UTC().Format(time.RFC3339Nano), T.UTC().Weekday().String(), log
 					c.Violate("schedule:condition-state-wrong", fmt.Sprintf("schedule condition %s (%s-%s, weekdays %v written as %s, dates %v) is active=%v after a trigger for %s (%s UTC), the definition says %v",
-						id, cfgs[id].Start, cfgs[id].End, cfgs[id].Weekdays, layouts[id], cfgs[id].Dates, got, T.Format(time.RFC3339Nano), T.UTC().Weekday(), want), wit)
+						id, cf.Start, cf.End, cf.Weekdays, layouts[id], cf.Dates, got, T.Format(time.RFC3339Nano), T.UTC().Weekday(), want), wit)
 					return
 				}
 			}
